@@ -228,6 +228,37 @@ def key_strings(ck, all_ops, all_obs, stats):
             ck.violation(f"psk-raw:{key[:12]}", f"key {key!r}: unclassified outcome {out}", {"key": key})
 
 
+def client_keys(ck, stats):
+    """the same rule through the public entry point: an APIClient configured with a key that is not base64 for exactly 32 bytes
+    fails its connect with the invalid-key error and writes nothing - in particular it never falls back to plaintext"""
+    import simnet
+    from aioesphomeapi.client import APIClient
+    good = base64.b64encode(bytes(range(32))).decode()
+    bad = [" ", "\n", "\t \n", "   ", base64.b64encode(bytes(31)).decode(), base64.b64encode(bytes(33)).decode(), "QUJD", "not base64 at all",
+           good[:-1], base64.b64encode(bytes(0)).decode() + " ", "Ä" * 10]
+    for key in bad:
+        net = simnet.Net()
+        loop = net.loop
+        net.auto_resolve = net.auto_sock = True
+        try:
+            client = APIClient("10.0.0.1", 6053, None, noise_psk=key)
+            o = simnet.spawn(loop, client.connect(login=False), "connect")
+            loop.run_idle()
+            loop.advance(1.0)
+            exc = o.task.exception() if o.task.done() and not o.task.cancelled() else None
+            outcome = type(exc).__name__ if exc is not None else ("ok" if o.task.done() else "pending")
+        except core.InvalidEncryptionKeyAPIError:
+            outcome = "InvalidEncryptionKeyAPIError"      # rejected even earlier: fine
+        written = [bytes(d) for tr in net.transports for _, d in tr.writes]
+        stats["n"] += 1
+        stats["kinds"]["client-psk"] = stats["kinds"].get("client-psk", 0) + 1
+        if outcome != "InvalidEncryptionKeyAPIError" or written:
+            ck.violation(f"client-psk:{key!r}", f"APIClient(noise_psk={key!r}).connect(): {outcome}, bytes written {[w[:12].hex() for w in written]} - a key "
+                         "that is not base64 for exactly 32 bytes is rejected as an invalid-encryption-key error before anything is sent",
+                         {"key": key, "outcome": outcome, "written": [w.hex()[:60] for w in written]})
+        net.close()
+
+
 def run(ck: Check):
     thorough = ck.tier == "thorough"
     all_ops, all_obs = [], []
@@ -307,6 +338,7 @@ def run(ck: Check):
     all_ops.append(["plain.reset", "plain.feed 010005016465760" + "0"])
     all_obs.append(["ok", "d [] closed=requiresEncryption"])
     key_strings(ck, all_ops, all_obs, stats)
+    client_keys(ck, stats)
 
     dis = 0
     if ck.driver_ok:
